@@ -18,6 +18,7 @@ import os
 import pickle
 import random
 import sys
+import threading
 
 from .. import decode as dec
 from ..boot import SIM, set_capacity
@@ -185,8 +186,19 @@ def gen_plan(seed, cfg):
 
     hk = gen_heap_knobs(rng)
     hk["twin"] = 0
-    return {"engine": "S", "run_seed": seed, "hashseed": bucket, "capacity": CAP_BY_BUCKET[bucket],
+    plan = {"engine": "S", "run_seed": seed, "hashseed": bucket, "capacity": CAP_BY_BUCKET[bucket],
             "heap": hk, "ops": ops, "gc_faults": sorted(faults)}
+    threaded = rng.random() < (0.35 if tier == "thorough" else 0.08)
+    sp = {"strategy": "coin", "p_hot": rng.choice([0.02, 0.05, 0.1, 0.3]),
+          "p_cold": rng.choice([0.0, 0.001]), "p_gc": rng.choice([0.0, 0.005, 0.02]),
+          "lock_points": False}
+    thread_of = [rng.randrange(2) for _ in ops]
+    if threaded and len(ops) >= 2:
+        # the same history dealt out to two simulated threads: a del in one thread races an
+        # evaluate that uses the tensor as input in the other
+        plan.update({"threads": 2, "thread_of": thread_of, "sched": sp, "decisions": None,
+                     "gc_faults": []})
+    return plan
 
 
 # --------------------------------------------------------------------------------- execution
@@ -196,7 +208,10 @@ _state = {"capacity": None, "counted": None}
 def boot(cfg=None):
     from ..boot import boot as _boot
 
-    _boot()
+    _boot(sim_locks=True)
+    from . import threads as T
+
+    T.init_trace_state()
     import tensora  # noqa: F401
     from tensora import Tensor, evaluate  # noqa: F401
 
@@ -294,6 +309,15 @@ class Run:
         self.gc_freed_blocks = 0
         self.opkinds = []
         self.deleted_kernel_output = False
+        self.threaded = plan.get("threads", 1) > 1
+        self.inflight = {}  # thread -> logical ids the operation in flight holds references to
+        self.sched = None
+
+    def reachable(self):
+        r = self.model.reachable()
+        for lids in self.inflight.values():
+            r |= lids
+        return r
 
     def viol(self, props, oracle, at, *detail):
         self.violations.append({"properties": list(props), "oracle": oracle, "phase": at,
@@ -305,7 +329,7 @@ class Run:
     # ------------------------------------------------------------ tracing with GC faults
     def traced(self, fn, targets):
         """Run fn(); at the k-th counted line event (k in targets) run the collector."""
-        if not targets:
+        if not targets or self.threaded:
             return fn()
         files = _counted_codes()
         count = [0]
@@ -348,7 +372,7 @@ class Run:
         heap = self.heap
         heap.drain()
         m = self.model
-        for lid in sorted(m.reachable()):
+        for lid in sorted(self.reachable()):
             lg = m.logical[lid]
             for role, bid in lg["blocks"]:
                 if bid is None:
@@ -365,18 +389,20 @@ class Run:
             props = ("C13",) if e[0] in ("double_free", "free_unknown") else ("C05",)
             self.viol(props, e[0], at, *e[1:])
         if before_ids is not None:
+            # before_ids is the call id of the operation: whatever its kernel allocated and did not
+            # hand back in its output must have been released by the kernel itself
             held = set()
             if new_output is not None:
                 held = {bid for _, bid in m.logical[new_output]["blocks"]}
             for b in heap.live_blocks():
-                if b.id not in before_ids and b.id not in held:
+                if b.call == before_ids and b.id not in held:
                     self.viol(("C13",), "kernel_leak", at, b.size, b.kind)
 
     def check_collected(self, at):
         """At an explicit gc operation: every block of an unreachable logical tensor is freed."""
         heap = self.heap
         m = self.model
-        reach = m.reachable()
+        reach = self.reachable()
         for lid, lg in m.logical.items():
             if lid in reach or lg.get("checked_dead"):
                 continue
@@ -385,6 +411,106 @@ class Run:
                 if b is not None and b.state == "live":
                     self.viol(("C13",), "not_freed_after_last_reference", at, role, lg["origin"])
             lg["checked_dead"] = True
+
+    # --------------------------------------------------------------- two simulated threads
+    inconclusive = None
+
+    @staticmethod
+    def _thread_tracer(s):
+        """Pre-emption points of a threaded history: the same cache-independent call path that
+        places GC faults (so that a warm or cold kernel cache cannot shift the schedule)."""
+        files = _counted_codes()
+        cache = {}
+
+        def mk(short):
+            def local(frame, event, arg):
+                if event == "line":
+                    s.point(f"{short}:{frame.f_lineno}", True)
+                return local
+
+            return local
+
+        def glob(frame, event, arg):
+            code = frame.f_code
+            loc = cache.get(code, 0)
+            if loc == 0:
+                loc = None
+                f = code.co_filename
+                if f in files and (code.co_name not in ("__init__", "cachable_tensor_method")
+                                   or f.endswith("tensor.py")):
+                    loc = mk(os.path.basename(f))
+                cache[code] = loc
+            return loc
+
+        return glob
+
+    def run_threads(self):
+        from ..sched import Abandoned, Sched
+        from . import threads as T
+
+        plan = self.plan
+        n = plan["threads"]
+        s = Sched(n, plan["sched"], plan["run_seed"] ^ 0x5E55, replay=plan.get("decisions"),
+                  step_budget=3_000_000)
+        self.sched = s
+        SIM.sched = s
+        tracer = self._thread_tracer(s)
+        errors = [None] * n
+        heap = self.heap
+
+        def heap_hook(label):
+            me = s.tid()
+            if me is not None and me == s.cur:
+                s.point(label, True)
+
+        heap.hook = heap_hook
+        mine = [[i for i, t in enumerate(plan["thread_of"]) if t == k] for k in range(n)]
+
+        def body(k):
+            th = threading.current_thread()
+            th.sim_id = k
+            s.ev[k].acquire()
+            if s.abandoned:
+                s.finish()
+                return
+            sys.settrace(tracer)
+            try:
+                for i in mine[k]:
+                    self.step(i, plan["ops"][i])
+            except Abandoned:
+                errors[k] = "abandoned"
+            except BaseException as e:
+                import traceback
+
+                errors[k] = f"{type(e).__name__}: {e} {traceback.format_exc()[-800:]}"
+            finally:
+                sys.settrace(None)
+                th.sim_call = None
+                self.inflight[k] = set()
+                s.finish()
+
+        ts = [threading.Thread(target=body, args=(k,), name=f"sim-{k}", daemon=True) for k in range(n)]
+        for t in ts:
+            t.start()
+        s.start()
+        how = s.wait()
+        heap.hook = None
+        SIM.sched = None
+        for t in ts:
+            t.join(timeout=60)
+        if how == "stalled" or any(t.is_alive() for t in ts):
+            self.inconclusive = "unmodelled_blocking"
+        elif s.deadlock is not None or s.budget_exceeded:
+            self.inconclusive = "deadlock_or_budget"  # not a statement of C13
+        else:
+            for k in range(n):
+                if errors[k] not in (None, "abandoned"):
+                    raise RuntimeError(f"simulated thread {k} died in harness code: {errors[k]}")
+            if plan.get("decisions") is None:
+                plan["decisions"] = s.decisions
+        self.log.append(("sched", s.log.hexdigest(), s.steps))
+        self.probe("histories_on_two_threads")
+        self.gc_fired += s.gcs
 
     # --------------------------------------------------------------------- operations
     def bind(self, name, obj, lid):
@@ -428,11 +554,19 @@ class Run:
         at = f"{i}:{kind}"
         targets = [k for j, k in self.plan["gc_faults"] if j == i]
         t0 = len(heap.trace)
-        before_ids = {b.id for b in heap.live_blocks()}
+        before_ids = f"op{i}"
         outcome = "ok"
         new_lid = None
         kernel_ran = False
-        heap.current_call = f"op{i}"
+        th = threading.current_thread()
+        th.sim_call = f"op{i}"
+        tid = getattr(th, "sim_id", -1)
+        touched = set()
+        for nm in [o.get("src"), o.get("a"), o.get("b"), o.get("name")] + [
+                sv.get("name") for sv in (o.get("srcs") or {}).values()]:
+            if nm is not None and nm in m.names:
+                touched.add(m.names[nm][1])
+        self.inflight[tid] = touched
         try:
             if kind == "eval":
                 a, of, params, od, be = KERNELS[o["kernel"]]
@@ -633,11 +767,15 @@ class Run:
         except Exception:
             # every call into tensora above has its own handler: an exception that reaches this
             # point was raised by the harness itself and must never be reported as a violation
-            sys.settrace(None)
-            heap.current_call = "harness"
+            if not self.threaded:
+                sys.settrace(None)
+            th.sim_call = None
+            self.inflight[tid] = set()
             raise
-        sys.settrace(None)
-        heap.current_call = "harness"
+        if not self.threaded:
+            sys.settrace(None)
+        th.sim_call = None
+        self.inflight[tid] = set()
         # struct alias that outlives its Tensor?
         for n, (obj, lid) in m.names.items():
             if not isinstance(obj, Tensor) and m.logical[lid]["blocks"]:
@@ -662,8 +800,13 @@ class Run:
             heap.reset()
             heap.configure(garbage=g, redzone=z, rz=hk["rz"], realloc=hk["realloc"], zero=hk["zero"],
                            poison=poison)
-            for i, o in enumerate(plan["ops"]):
-                self.step(i, o)
+            if self.threaded:
+                self.run_threads()
+            else:
+                for i, o in enumerate(plan["ops"]):
+                    self.step(i, o)
+            if self.inconclusive:
+                return self
             # bounded liveness: drop every name, collect, nothing may remain
             self.model.names.clear()
             gc.collect()
@@ -685,6 +828,9 @@ def run_plan(plan, cfg=None):
     _warm()
     r = Run(plan).run()
     heap = SIM.heap
+    if r.inconclusive:
+        return {"verdict": "inconclusive", "skip": r.inconclusive, "violations": [], "stats": {},
+                "probes": r.probes, "digest": "inconclusive"}
     seen = set()
     vio = []
     for v in r.violations:
